@@ -192,6 +192,7 @@ struct Case {
     vh::Sig sig;
     // statistics for the non-triviality rule
     bool multi_loop_same_signal_delivery = false;
+    bool delivery_to_more_than_8_loops = false;
     bool full_cycle_mid_history = false;
     int prev_cnt[NSIG_USED];
     bool failed_enable_destroyed[NSIG_USED];    // an event whose enable() had failed, with this signal in its set, was destroyed
@@ -229,10 +230,28 @@ void on_loop(LoopCtx &L, const std::function<void()> &f) {
     a.cv.wait(lk, [&a] { return a.done; });
 }
 
+//! two rounds; in each round one task is posted to every running loop and all acknowledgements are awaited. Per loop the
+//! second task is posted after the first one ran, so it runs in a later pass than the one that saw the signal pipe readable.
+//! (posting to all loops before waiting keeps a round cheap when there are two dozen loops)
 void barrier(Case &C) {
-    for (int round = 0; round < 2; ++round)
-        for (auto &L : C.loops)
-            if (L->running) on_loop(*L, [] {});
+    for (int round = 0; round < 2; ++round) {
+        std::vector<std::unique_ptr<Ack>> acks;
+        for (auto &L : C.loops) {
+            if (!L->running) continue;
+            acks.emplace_back(new Ack);
+            Ack *a = acks.back().get();
+            L->loop->runInLoop([a] {
+                std::lock_guard<std::mutex> g(a->m);
+                a->done = true;
+                a->cv.notify_one();
+            }, "c04-barrier");
+        }
+        for (auto &a : acks) {
+            std::unique_lock<std::mutex> lk(a->m);
+            Ack *ap = a.get();
+            a->cv.wait(lk, [ap] { return ap->done; });
+        }
+    }
 }
 
 int model_count(Case &C, int si) {
@@ -592,6 +611,12 @@ void deliver(Case &C, const std::vector<Delivery> &ds, Pending *defer = nullptr)
         }
         vh::counter("deliveries");
         vh::counter(vh::fmt("deliveries_to_%d_loops", (int)std::min<size_t>(loops_hit.size(), 3)));
+        vh::counter_max("max_loops_subscribed_to_one_signal", loops_hit.size());
+        if (loops_hit.size() > 8) {
+            vh::counter("deliveries_to_more_than_8_loops");
+            if (loops_hit.size() > 16) vh::counter("deliveries_to_more_than_16_loops");
+            C.delivery_to_more_than_8_loops = true;
+        }
         if (receivers == 0) vh::counter(disp_is_sentinel(C.disp[d.si].kind) ? "deliveries_no_subscriber_sentinel_only" : "deliveries_no_subscriber_ignored");
         if (receivers >= 2) vh::counter("deliveries_to_several_events");
         if (loops_hit.size() >= 2 && receivers >= 2) C.multi_loop_same_signal_delivery = true;
@@ -703,6 +728,7 @@ void continue_in_fresh_process(uint64_t idx) {
 
 void finish_case(Case &C, bool stop_first, int nloops, uint64_t idx) {
     bool two_on_one = C.multi_loop_same_signal_delivery;
+    if (C.delivery_to_more_than_8_loops) vh::counter("scenarios_with_more_than_8_loops_on_one_signal");
     teardown(C, stop_first);
     bool nontrivial = nloops >= 2 && two_on_one && C.full_cycle_mid_history && !C.failed;
     vh::note_case(C.sig.h, nontrivial);
@@ -744,7 +770,12 @@ void random_case(uint64_t idx, vh::Rng &r) {
         say(C, vh::fmt("disposition %s=%s", g_signame[si], disp_to_string(C.disp[si].snap).c_str()));
     }
 
-    int nloops = 1 + (int)r.below(3);
+    // one history in six has a wide population of loops (9-24, each on its own thread), (nearly) all of them subscribed to the
+    // same signal: the process-level handler has to notify every one of them (a loop costs 3-4 descriptors, far below
+    // FD_SETSIZE for the select back-end)
+    const bool wide = r.chance(1, 6);
+    int nloops = wide ? 9 + (int)r.below(16) : 1 + (int)r.below(3);
+    if (wide) vh::counter("scenarios_wide_loop_population");
     for (int i = 0; i < nloops; ++i) {
         std::unique_ptr<LoopCtx> L(new LoopCtx);
         L->idx = i; L->engine = r.chance(1, 2) ? "epoll" : "select";
@@ -840,6 +871,36 @@ void random_case(uint64_t idx, vh::Rng &r) {
     }
     if (!C.failed) check_dispositions(C, "loops started");
 
+    // ---- wide population: one event per loop (a few loops left out) on one signal, enabled in a seeded order; the history
+    // below then churns them (a loop whose only subscription goes away closes its pipe and gets a new one - with other
+    // descriptor numbers - when it subscribes again, so the order of the loops in the handler's list keeps changing)
+    int wide_sig = -1;
+    if (wide && !C.failed) {
+        wide_sig = r.pick(C.used_sigs);
+        std::vector<int> order;
+        for (int i = 0; i < nloops; ++i) order.push_back(i);
+        for (size_t i = order.size(); i > 1; --i) std::swap(order[i - 1], order[r.below(i)]);
+        say(C, vh::fmt("wide population on %s:", g_signame[wide_sig]));
+        for (int li : order) {
+            if (C.failed) break;
+            if (r.chance(1, 12)) continue;
+            std::vector<int> sigs(1, wide_sig);
+            if (C.used_sigs.size() > 1 && r.chance(1, 5)) { int o = r.pick(C.used_sigs); if (o != wide_sig) sigs.push_back(o); }
+            unsigned f = (unsigned)r.below(12);
+            int fl = f < 9 ? F_PERSIST : f == 9 ? F_ONESHOT : f == 10 ? F_SELF_DISABLE : F_REARM;
+            Ev &e = new_ev(C, li, sigs, fl, sigs.size() == 1 ? (r.chance(1, 3) ? 1 : 0) : (r.chance(1, 2) ? 2 : 1));
+            C.sig.add(li); C.sig.add(fl); for (int s : sigs) C.sig.add(100 + s);
+            op_create(C, e);
+            say(C, vh::fmt("new %s", evdesc(e, b)));
+            if (!C.failed && r.chance(9, 10)) {
+                op_compound(C, *C.loops[li], {MiniOp{0, &e}});
+                say(C, vh::fmt("enable e%d", e.id));
+            }
+        }
+        if (!C.failed) check_dispositions(C, "wide population");
+    }
+    const size_t live_cap = wide ? (size_t)nloops + 6 : 8, total_cap = wide ? (size_t)nloops + 14 : 14;
+
     // ---- phase 2: the history
     int steps = 20 + (int)r.below(41);
     for (int st = 0; st < steps && !C.failed; ++st) {
@@ -847,7 +908,7 @@ void random_case(uint64_t idx, vh::Rng &r) {
         std::vector<Ev *> live, live_dis, live_en;
         for (auto &e : C.evs) if (e->alive) { live.push_back(e.get()); (e->enabled ? live_en : live_dis).push_back(e.get()); }
         C.sig.add(op);
-        if (live.empty() || (op < 12 && live.size() < 8 && C.evs.size() < 14)) {
+        if (live.empty() || (op < 12 && live.size() < live_cap && C.evs.size() < total_cap)) {
             Ev &e = gen_event();
             op_create(C, e);
             say(C, vh::fmt("new %s", evdesc(e, b)));
@@ -917,7 +978,10 @@ void random_case(uint64_t idx, vh::Rng &r) {
             bool same_sig = r.chance(1, 2);
             std::vector<int> subscribed;
             for (int si : C.used_sigs) if (model_count(C, si) > 0) subscribed.push_back(si);
-            auto pick_sig = [&]() -> int { return (!subscribed.empty() && r.chance(2, 3)) ? r.pick(subscribed) : r.pick(C.used_sigs); };
+            auto pick_sig = [&]() -> int {
+                if (wide && r.chance(2, 3)) return wide_sig;
+                return (!subscribed.empty() && r.chance(2, 3)) ? r.pick(subscribed) : r.pick(C.used_sigs);
+            };
             int si0 = pick_sig();
             for (int i = 0; i < nd; ++i) {
                 int si = same_sig ? si0 : pick_sig();
